@@ -1,0 +1,30 @@
+//go:build verif
+
+package core
+
+import "sync/atomic"
+
+// VerifPersist forces one flush of the write cache to the underlying store at
+// a point chosen by the verification harness (the production flush is driven
+// by a timer inside Run only). With gc set it also does what Run does after a
+// timer-driven flush when RemoveUntraceableBlocks is on.
+func (bc *Blockchain) VerifPersist(gc bool) error {
+	var oldPersisted uint32
+
+	if gc && bc.config.RemoveUntraceableBlocks {
+		oldPersisted = atomic.LoadUint32(&bc.persistedHeight)
+	}
+	_, err := bc.persist()
+	if err != nil {
+		return err
+	}
+	if gc && bc.config.RemoveUntraceableBlocks {
+		bc.tryRunGC(oldPersisted)
+	}
+	return nil
+}
+
+// VerifPersistedHeight returns the height of the last flushed block.
+func (bc *Blockchain) VerifPersistedHeight() uint32 {
+	return atomic.LoadUint32(&bc.persistedHeight)
+}
